@@ -64,6 +64,7 @@ func init() {
 		// MapKeys enumerates every key for which MapIndex yields a valid value
 		u.fact(fmt.Sprintf("(forall ((qx Iface)) (! (=> (rv_valid (rv_mapval %s qx)) (and (<= 0 (rv_keyidx %s qx)) (< (rv_keyidx %s qx) (rv_len %s)) (= (rv_iface (rv_key %s (rv_keyidx %s qx))) qx))) :pattern ((rv_mapval %s qx))))", v, v, v, v, v, v, v))
 		u.fact(fmt.Sprintf("(forall ((qi Int)) (! (and (rv_valid (rv_key %s qi)) (rv_iskey %s (rv_key %s qi)) (= (rv_type (rv_key %s qi)) (keyT (rv_type %s)))) :pattern ((rv_key %s qi))))", v, v, v, v, v, v))
+		entryValFacts(u, v)
 		return term(s, resTy)
 	})
 	reg("(reflect.Value).MapIndex", "Value.MapIndex(k): panics unless kind is Map and k is valid and assignable to the key type; result valid iff the key is present", func(fr *Frame, st *State, callee *ssa.Function, args []*Val, pos token.Pos, resTy types.Type) *Val {
@@ -73,10 +74,75 @@ func init() {
 		u.libpre(fr, st, "reflect.Value.MapIndex", and(fmt.Sprintf("(= %s 21)", rvKind(u, v)), app("rv_valid", k), u.assignableDef(app("rv_type", k), fmt.Sprintf("(keyT (rv_type %s))", v))), pos, "reflect: MapIndex on a non-map or with a key of the wrong type panics")
 		u.fn("rv_mapval", []string{"RV", "Iface"}, "RV")
 		r := app("rv_mapval", v, app("rv_iface", k))
-		u.fact(implies(app("rv_iskey", v, k), app("rv_valid", r)))
+		// a key handed out by MapKeys is found again only if it equals itself: a NaN float (also inside an interface
+		// key) is a key of the map that no lookup finds - MapIndex returns the zero Value for it
+		u.fact(implies(and(app("rv_iskey", v, k), selfEqualKind(fmt.Sprintf("(kind (ityp (rv_iface %s)))", k))), app("rv_valid", r)))
 		u.fact(implies(app("rv_valid", r), eq(app("rv_type", r), fmt.Sprintf("(elemT (rv_type %s))", v))))
 		return rvRet(r, resTy)
 	})
+	// ---------------- map iterators ----------------
+	mapIterFacts := func(u *Unit, v string) {
+		ln := app("rv_len", v)
+		u.fact(and(fmt.Sprintf("(>= %s 0)", ln), fmt.Sprintf("(< %s 281474976710656)", ln)))
+		u.fn("rv_key", []string{"RV", "Int"}, "RV")
+		u.fn("rv_keyidx", []string{"RV", "Iface"}, "Int")
+		u.fn("rv_mapval", []string{"RV", "Iface"}, "RV")
+		u.fact(fmt.Sprintf("(forall ((qx Iface)) (! (=> (rv_valid (rv_mapval %s qx)) (and (<= 0 (rv_keyidx %s qx)) (< (rv_keyidx %s qx) (rv_len %s)) (= (rv_iface (rv_key %s (rv_keyidx %s qx))) qx))) :pattern ((rv_mapval %s qx))))", v, v, v, v, v, v, v))
+		u.fact(fmt.Sprintf("(forall ((qi Int)) (! (and (rv_valid (rv_key %s qi)) (rv_iskey %s (rv_key %s qi)) (= (rv_type (rv_key %s qi)) (keyT (rv_type %s)))) :pattern ((rv_key %s qi))))", v, v, v, v, v, v))
+		entryValFacts(u, v)
+	}
+	reg("(reflect.Value).MapRange", "Value.MapRange: panics unless kind is Map; returns an iterator positioned before the first of the Len() entries (the same enumeration MapKeys returns)", func(fr *Frame, st *State, callee *ssa.Function, args []*Val, pos token.Pos, resTy types.Type) *Val {
+		u := fr.u
+		v := args[0].T
+		rvDecls(u)
+		u.libpre(fr, st, "reflect.Value.MapRange", fmt.Sprintf("(= %s 21)", rvKind(u, v)), pos, "reflect: MapRange of a non-map panics")
+		mapIterFacts(u, v)
+		it := u.allocRef(st, "mapiter")
+		u.fact(eq(app(u.fn("miter_rv", []string{"Ref"}, "RV"), it), v))
+		u.ghostSort["miter_pos"] = "(Array Ref Int)"
+		n := u.w.newConst("miter_pos", "(Array Ref Int)")
+		u.fact(eq(n, fmt.Sprintf("(store %s %s (- 1))", u.ghostOf(st, "miter_pos"), it)))
+		st.ghost["miter_pos"] = n
+		return term(it, resTy)
+	})
+	miterPos := func(u *Unit, st *State, it string) string {
+		u.ghostSort["miter_pos"] = "(Array Ref Int)"
+		return fmt.Sprintf("(select %s %s)", u.ghostOf(st, "miter_pos"), it)
+	}
+	reg("(*reflect.MapIter).Next", "MapIter.Next: advances to the next entry; false when the Len() entries are exhausted", func(fr *Frame, st *State, callee *ssa.Function, args []*Val, pos token.Pos, resTy types.Type) *Val {
+		u := fr.u
+		it := args[0].T
+		u.oblige(fr, st, "nil", "mapiter", fmt.Sprintf("(distinct %s nil)", it), pos, "Next through a nil *reflect.MapIter")
+		v := app(u.fn("miter_rv", []string{"Ref"}, "RV"), it)
+		rvDecls(u)
+		np := u.w.newConst("miterpos", "Int")
+		u.fact(eq(np, fmt.Sprintf("(+ %s 1)", miterPos(u, st, it))))
+		n := u.w.newConst("miter_pos", "(Array Ref Int)")
+		u.fact(eq(n, fmt.Sprintf("(store %s %s %s)", u.ghostOf(st, "miter_pos"), it, np)))
+		st.ghost["miter_pos"] = n
+		return term(fmt.Sprintf("(< %s (rv_len %s))", np, v), resTy)
+	})
+	stdModsets["(*reflect.MapIter).Next"] = func(u *Unit) *modset {
+		u.ghostSort["miter_pos"] = "(Array Ref Int)"
+		return &modset{keys: map[string]bool{}, ghosts: map[string]bool{"miter_pos": true}}
+	}
+	for _, which := range []string{"Key", "Value"} {
+		which := which
+		reg("(*reflect.MapIter)."+which, "MapIter."+which+": panics before the first or after the last Next; the key (value) of the current entry - always a valid Value, also for keys no lookup finds (NaN)", func(fr *Frame, st *State, callee *ssa.Function, args []*Val, pos token.Pos, resTy types.Type) *Val {
+			u := fr.u
+			it := args[0].T
+			v := app(u.fn("miter_rv", []string{"Ref"}, "RV"), it)
+			rvDecls(u)
+			mapIterFacts(u, v)
+			p := miterPos(u, st, it)
+			u.libpre(fr, st, "reflect.MapIter."+which, and(fmt.Sprintf("(distinct %s nil)", it), fmt.Sprintf("(<= 0 %s)", p), fmt.Sprintf("(< %s (rv_len %s))", p, v)), pos, "reflect: MapIter."+which+" called before Next or after the iterator is exhausted panics")
+			k := fmt.Sprintf("(rv_key %s %s)", v, p)
+			if which == "Key" {
+				return rvRet(k, resTy)
+			}
+			return rvRet(fmt.Sprintf("(rv_entryval %s %s)", v, p), resTy)
+		})
+	}
 	reg("(reflect.Value).FieldByName", "Value.FieldByName: panics unless kind is Struct; zero Value if there is no such field", func(fr *Frame, st *State, callee *ssa.Function, args []*Val, pos token.Pos, resTy types.Type) *Val {
 		u := fr.u
 		v, n := args[0].T, args[1].T
@@ -692,4 +758,24 @@ func indexOf(s, sub string) int {
 		}
 	}
 	return -1
+}
+
+// selfEqualKind: values of this reflect.Kind always compare equal to themselves (no NaN inside): bool, the integer
+// kinds, chan, pointer, string, unsafe pointer
+func selfEqualKind(k string) string {
+	return fmt.Sprintf("(or (and (<= 1 %s) (<= %s 12)) (= %s 18) (= %s 22) (= %s 24) (= %s 26))", k, k, k, k, k, k)
+}
+
+// entryValFacts: the value of the j-th entry of a map value (what an iterator yields) is always a valid Value of the
+// element type; a lookup by the j-th key finds it when that key equals itself
+func entryValFacts(u *Unit, v string) {
+	u.fn("rv_entryval", []string{"RV", "Int"}, "RV")
+	u.fn("rv_mapval", []string{"RV", "Iface"}, "RV")
+	ck := "entryval:" + v
+	if u.frameDone[ck] {
+		return
+	}
+	u.frameDone[ck] = true
+	u.fact(fmt.Sprintf("(forall ((qi Int)) (! (and (rv_valid (rv_entryval %s qi)) (= (rv_type (rv_entryval %s qi)) (elemT (rv_type %s)))) :pattern ((rv_entryval %s qi))))", v, v, v, v))
+	u.fact(fmt.Sprintf("(forall ((qi Int)) (! (=> %s (= (rv_mapval %s (rv_iface (rv_key %s qi))) (rv_entryval %s qi))) :pattern ((rv_key %s qi))))", selfEqualKind(fmt.Sprintf("(kind (ityp (rv_iface (rv_key %s qi))))", v)), v, v, v, v))
 }
